@@ -377,7 +377,7 @@ func finish(t *rapid.T, z *zm.Zone, nrender int) zoneCase {
 
 func genZoneCase(t *rapid.T) zoneCase {
 	o := genOpts()
-	o.BigGenerate = pbt.Thorough()
+	o.BigGenerate = pbt.Thorough() && rapid.IntRange(0, 19).Draw(t, "big") == 0
 	z := zm.GenZone(t, o)
 	return finish(t, z, rapid.IntRange(2, 3).Draw(t, "nrender"))
 }
@@ -402,6 +402,64 @@ func genIncludeCase(t *rapid.T) zoneCase {
 	o.IncludeHeavy = true
 	z := zm.GenZone(t, o)
 	return finish(t, z, 2)
+}
+
+// ---------------------------------------------------------------------------------------------
+// NewRR / ReadRR: the first record of a text under the documented defaults (origin ".", default
+// TTL 3600, class IN)
+
+type newRRCase struct {
+	Zone    zm.Zone
+	Text    string
+	UseRead bool // ReadRR instead of NewRR
+}
+
+func genNewRR(t *rapid.T) newRRCase {
+	o := genOpts()
+	o.MaxItems = 3
+	o.NoIncludes = true
+	o.FixedOptions = true
+	z := zm.GenZone(t, o)
+	den, err := zm.Denote(z)
+	if err != nil {
+		t.Fatalf("generator: %v", err)
+	}
+	r, err := zm.Render(t, z, den, renderOpts())
+	if err != nil {
+		t.Fatalf("renderer: %v", err)
+	}
+	return newRRCase{Zone: *z, Text: r.Files[z.FileName], UseRead: rapid.Bool().Draw(t, "read")}
+}
+
+func checkNewRR(c newRRCase) error {
+	den, err := zm.Denote(&c.Zone)
+	if err != nil || den.Err != "" || len(c.Zone.Files) > 0 || !c.Zone.HasOrigin || len(c.Zone.Origin) != 0 || !c.Zone.HasDefTTL || c.Zone.DefTTL != 3600 {
+		pbt.Note(nil, false, "invalid-model")
+		return nil
+	}
+	pbt.Note([]byte(c.Text), nontrivialZone(&c.Zone), fmt.Sprintf("newrr:read=%v", c.UseRead), fmt.Sprintf("newrr:records=%s", bucket(len(den.Recs))))
+	var rr dns.RR
+	if c.UseRead {
+		rr, err = dns.ReadRR(strings.NewReader(c.Text), c.Zone.FileName)
+	} else {
+		rr, err = dns.NewRR(c.Text)
+	}
+	if err != nil {
+		return pbt.Errf("NewRR/ReadRR reports %v\n%q", err, c.Text)
+	}
+	if len(den.Recs) == 0 {
+		if rr != nil {
+			return pbt.Errf("the text denotes no record, NewRR/ReadRR returned %v\n%q", rr, c.Text)
+		}
+		return nil
+	}
+	if rr == nil {
+		return pbt.Errf("NewRR/ReadRR returned no record, the text denotes %d\n%q", len(den.Recs), c.Text)
+	}
+	if err := zm.CompareRec(rr, &den.Recs[0]); err != nil {
+		return pbt.Errf("first record: %v\n%q", err, c.Text)
+	}
+	return nil
 }
 
 // ---------------------------------------------------------------------------------------------
@@ -514,9 +572,10 @@ func genFollow(t *rapid.T) followCase {
 // ---------------------------------------------------------------------------------------------
 
 func init() {
-	pbt.Register(pbt.Sub[zoneCase]{Name: "zones", Weight: 10, Gen: genZoneCase, Check: checkZone})
+	pbt.Register(pbt.Sub[zoneCase]{Name: "zones", Weight: 30, Gen: genZoneCase, Check: checkZone})
 	pbt.Register(pbt.Sub[zoneCase]{Name: "generate", Weight: 3, Gen: genGenerateCase, Check: checkZone})
-	pbt.Register(pbt.Sub[zoneCase]{Name: "includes", Weight: 3, Gen: genIncludeCase, Check: checkZone})
+	pbt.Register(pbt.Sub[zoneCase]{Name: "includes", Weight: 8, Gen: genIncludeCase, Check: checkZone})
+	pbt.Register(pbt.Sub[newRRCase]{Name: "newrr", Weight: 5, Gen: genNewRR, Check: checkNewRR})
 	pbt.Register(pbt.Sub[followCase]{Name: "type-followed", Weight: 2, Gen: genFollow, Check: checkFollow})
 	pbt.RegisterEnum(pbt.Enum[followCase]{Name: "every-type-followed", Exhaustive: true, Each: eachFollow, Check: checkFollow})
 
